@@ -85,7 +85,7 @@ Definition reconcile_crate (rn : renames) (cn : str) (pd : parsed) : parsed :=
      p_aliases := stable_sort (fun a => original (aid a))
        (map (fun a => {| aid := aid a; agenerics := agenerics a; atype := check_type cn rn im (atype a);
                          acomments := acomments a; adecs := adecs a; aredacted := aredacted a |}) (p_aliases pd));
-     p_consts := p_consts pd;                          (* neither reconciled nor sorted *)
+     p_consts := stable_sort (fun c => original (cid c)) (p_consts pd);   (* sorted (fix: commit in /repo), not reconciled *)
      p_type_names := p_type_names pd; p_errors := p_errors pd; p_imports := p_imports pd |}.
 
 (* reconcile.rs:22 reconcile_aliases *)
